@@ -193,6 +193,20 @@ def h_run(E, N, C, pvar, chk, prop):
         E.cover('two slices merged into one group', ch.n_slices == 2 and ch.n_groups == 1)
     if prop == 'C08':
         return cl
+    if prop in ('C01', 'C02'):
+        # end to end: the message of each level against the table it was made from
+        from harness import msg as M
+        cl2 = [c for c in cl[:1]]
+        for w in WHICH:
+            t = getattr(ch, w)
+            if not isinstance(msgs[w], str):
+                continue
+            okta = [int(fval(x)) for x in col(t, 'okta')]
+            base = [fval(x) for x in col(t, 'height_base')]
+            codes = col(t, 'code')
+            for name, c in M.message_clauses(E, prop, okta, base, ch.msa, ch.clouds_above_msa_buffer, msgs[w], codes, M.atoms_of_codes(codes)):
+                cl2.append(('%s [%s]' % (name, w), c))
+        return cl2
     if prop == 'C05':
         cl2 = [c for c in cl[:1]]
         # no MSA cropping in pvar != 2: all rows present and unaltered, in order
